@@ -86,7 +86,10 @@ def validate_path(mod, cfg, c, values):
             [n for n, _ in sym_obl] != [n for n, _ in conc_obl]:
         return "tie", "different branch structure (float tie)"
     scale = _magnitude(values, sym_records + [("scale", [float(x) for x in cc.scale])])
-    for (n, a), (_, b) in zip(sym_records, conc_records):
+    # paths that applied the uninterpreted pow / log: the model's interpretation of the
+    # function is fictitious, so recorded values are not comparable; verdicts still are
+    comparable = not (c.pows or c.logs)
+    for (n, a), (_, b) in zip(sym_records, conc_records) if comparable else ():
         if isinstance(a, (list, tuple)) and isinstance(b, (list, tuple)) and len(a) != len(b):
             return "tie", "record %s differs in length (float tie)" % n
         if not _values_close(a, b, 1e-9, scale):
